@@ -12,6 +12,7 @@ mod c17;
 mod c18;
 mod c19;
 mod c15;
+mod lg;
 mod inputs;
 
 #[path = "/repo/harper-ls/src/git_commit_parser.rs"]
@@ -34,6 +35,7 @@ fn main() {
         "c18" => c18::main(&a),
         "c19" => c19::main(&a),
         "c15" => c15::main(&a),
+        "c05" => lg::c05(&a),
         other => {
             eprintln!("unknown subcommand {other}");
             std::process::exit(2);
